@@ -1,4 +1,4 @@
-import BfeVerif.C25.Proofs
+import BfeVerif.C25.Roundtrip
 /-!
   C25 — requests forwarded to backends cannot be split or injected.  Property theorems only.
 
@@ -48,56 +48,7 @@ theorem C25_lines_clean (r : Req) (t : TW) (hs : lineSafe r = true) (hn : newTW 
     · split
       · split <;> assumption
       · exact huu'
-  have nonempty_of_len : ∀ (l : Bytes), 0 < l.length → l ≠ [] := by
-    intro l h e; rw [e] at h; simp at h
-  intro l hl
-  unfold headLinesOf at hl
-  simp only [List.mem_append, List.mem_cons, List.not_mem_nil, or_false] at hl
-  rcases hl with ((hl | hl) | hl) | hl
-  · rcases hl with hl | hl
-    · subst hl
-      unfold requestLine
-      exact ⟨noBreak_append (noBreak_append (noBreak_append (noBreak_append hmeth (by decide)) hruri) (by decide)) (by decide),
-        nonempty_of_len _ (by simp [sHTTP11]; omega)⟩
-    · subst hl
-      exact ⟨noBreak_append (by decide) heff, nonempty_of_len _ (by simp [sHostPfx])⟩
-  · unfold twHeaderLines at hl
-    rcases List.mem_append.mp hl with hl | hl
-    · split at hl
-      · simp only [List.mem_cons, List.not_mem_nil, or_false] at hl
-        subst hl; exact ⟨by decide, by decide⟩
-      · cases hl
-    · split at hl
-      · simp only [List.mem_cons, List.not_mem_nil, or_false] at hl
-        subst hl
-        exact ⟨noBreak_append (by decide) (noBreak_toDec _), nonempty_of_len _ (by simp [sCLPfx])⟩
-      · split at hl
-        · simp only [List.mem_cons, List.not_mem_nil, or_false] at hl
-          subst hl; exact ⟨by decide, by decide⟩
-        · cases hl
-  · -- the Trailer line
-    rcases newTW_trailer r t hn with ht | ht
-    · rw [ht] at hl; cases hl
-    · rw [ht] at hl
-      cases hrt : r.trailer with
-      | none => rw [hrt] at hl; cases hl
-      | some ks =>
-        rw [hrt] at hl htr
-        simp only [] at hl
-        cases htl : trailerLine ks with
-        | none => rw [htl] at hl; cases hl
-        | some tl =>
-          rw [htl] at hl
-          simp only [List.mem_cons, List.not_mem_nil, or_false] at hl
-          subst hl
-          unfold trailerLine at htl
-          split at htl
-          · cases htl
-          · simp only [Option.some.injEq] at htl
-            subst htl
-            have hks : ∀ k ∈ ks, NoBreak k := fun k hk => noBreak_of_all (List.all_eq_true.mp htr k hk)
-            exact ⟨noBreak_append (by decide) (noBreak_joinComma ks hks), nonempty_of_len _ (by simp [sTrailerPfx])⟩
-  · exact subsetLines_ok r.header hk' l hl
+  exact lines_clean_core r t hmeth hruri heff hk' htr hn
 
 /-- **No injected lines (partial: hypothesis `lineSafe`)**: if method, target candidates, host and header
     / trailer names contain no CR/LF, then a strict CRLF line scanner reads from the written bytes exactly
@@ -108,7 +59,7 @@ theorem C25_no_injected_lines_partial (r : Req) (bs : Bytes) (hs : lineSafe r = 
     (hw : writeRequest r = (true, bs)) :
     ∃ t, newTW r = some t ∧
       headLines (bs.length + 1) bs = some (headLinesOf r t, (twBody t).1) := by
-  obtain ⟨t, hn, hbs⟩ := write_shape r bs hw
+  obtain ⟨t, hn, hbs, _⟩ := write_shape r bs hw
   refine ⟨t, hn, ?_⟩
   rw [hbs]
   apply headLines_join _ _ (C25_lines_clean r t hs hn)
@@ -128,13 +79,8 @@ theorem C25_byte_ok_of (p : UInt8 → Bool) (h13 : p 13 = false) (h10 : p 10 = f
     into exactly method, target, `HTTP/1.1` — what fails for HTTP/2's `:method = "GET /x"` / `:path = "/a b"`. -/
 theorem C25_request_line_partial (r : Req) (hm : isToken (effMethod r) = true)
     (ht : (ruri r).all isTargetByte = true) :
-    splitOn 32 (requestLine r) = [effMethod r, ruri r, sHTTP11] := by
-  simp only [isToken, Bool.and_eq_true] at hm
-  have h1 : ∀ b ∈ effMethod r, b ≠ 32 := fun b hb => tchar_ne_sp b (List.all_eq_true.mp hm.2 b hb)
-  have h2 : ∀ b ∈ ruri r, b ≠ 32 := fun b hb => targetByte_ne_sp b (List.all_eq_true.mp ht b hb)
-  unfold requestLine
-  rw [show effMethod r ++ [32] ++ ruri r ++ [32] ++ sHTTP11 = effMethod r ++ [32] ++ (ruri r ++ [32] ++ sHTTP11) by simp]
-  rw [splitOn_append 32 _ _ h1, splitOn_append 32 _ _ h2, splitOn_noSep 32 sHTTP11 (by decide)]
+    splitOn 32 (requestLine r) = [effMethod r, ruri r, sHTTP11] :=
+  splitOn_requestLine r hm ht
 
 /-- the HTTP/2 frontend guarantees the hypothesis: `validHeaderFieldValue` on every value including the
     pseudo headers, token names, and a parsable `:path` exclude CR and LF everywhere -/
@@ -212,6 +158,64 @@ theorem C25_spdy_no_injected_lines (r : Req) (bs : Bytes) (hg : guarSpdy r = tru
     ∃ t, newTW r = some t ∧ headLines (bs.length + 1) bs = some (headLinesOf r t, (twBody t).1) :=
   C25_no_injected_lines_partial r bs (C25_spdy_lineSafe r hg) hw
 
+/-! ### the round trip: print (model of bfe) then parse (strict RFC 9112 parser), layer by layer -/
+
+/-- layer 1, request line: the strict request-line parser returns exactly (method, target) -/
+theorem C25_layer1_request_line (r : Req) (hm : isToken (effMethod r) = true)
+    (hne : (ruri r).isEmpty = false) (ht : (ruri r).all isTargetByte = true) :
+    reqLine (requestLine r) = .ok (effMethod r, ruri r) :=
+  reqLine_requestLine r hm hne ht
+
+/-- layer 2, one field line: for a token name and ANY value whose sanitised form has no control byte but HT,
+    the strict field parser returns (name, sanitised value) — name verbatim, value = the documented rewrite -/
+theorem C25_layer2_field_line (k v : Bytes) (hk : isToken k = true) (hv : (sanitize v).all isValueByte = true) :
+    parseField (fieldLine k v) = some (k, sanitize v) := by
+  unfold fieldLine
+  rw [parseField_line k _ hk hv]
+  unfold sanitize
+  rw [trimOWS_sp_trimWS]
+
+/-- layer 2, the client's header block (after exclusion and sorting) parses to exactly its (name, value) list -/
+theorem C25_layer2_header_block (h : List (Bytes × List Bytes))
+    (hk : ∀ kv ∈ h, isToken kv.1 = true ∧ ∀ v ∈ kv.2, (sanitize v).all isValueByte = true) :
+    parseFields (subsetLines h) = some (clientFields (sortKV (h.filter fun kv => !excluded kv.1))) := by
+  rw [subsetLines_eq]
+  apply parseFields_client
+  intro kv hkv
+  exact hk kv (List.mem_filter.mp (mem_sortKV' _ _ hkv)).1
+
+/-- layer 3, Content-Length framing: the decimal bfe prints parses back to the same number -/
+theorem C25_layer3_content_length (n : Nat) : decVal (toDec n) = some n := decVal_toDec n
+
+/-- layer 3, chunked framing: the strict chunked decoder returns exactly the concatenated pieces and nothing
+    remains, for every chunking of the body into non-empty pieces (hex sizes of any magnitude) -/
+theorem C25_layer3_chunked (ps : List Bytes) (hne : ∀ p ∈ ps, p ≠ []) :
+    dechunk ((chunkEnc ps ++ [48, 13, 10] ++ crlf).length + 1) (chunkEnc ps ++ [48, 13, 10] ++ crlf) =
+      some (ps.flatten, []) := by
+  apply dechunk_chunkEnc ps hne
+  have := chunkEnc_length ps hne
+  simp only [List.length_append]; omega
+
+/-- **C25, round trip (partial: hypothesis `oneReqHyp`)**.  For every request whose method is a token, whose
+    target has no SP/CTL, whose host has no CTL, whose header names are tokens (not re-spelling Host /
+    Transfer-Encoding / Content-Length) and whose values are arbitrary up to control bytes other than
+    CR/LF/HT — with any body split into any pieces, declared length or not —: the bytes `Request.write`
+    produces are accepted by the strict single-request parser as EXACTLY ONE request, nothing remains, and
+    that request has the same method, the same target, the Host bfe chose, exactly the client's non-excluded
+    fields with sanitised values (as a multiset) and the same body. -/
+theorem C25_one_request_partial (r : Req) (bs : Bytes) (hg : oneReqHyp r = true)
+    (hw : writeRequest r = (true, bs)) :
+    ∃ p, rfcOne bs = .ok p ∧ compareParsed r p = none ∧
+      p.method = effMethod r ∧ p.target = ruri r ∧ p.body = bodyOf r := by
+  obtain ⟨t, _, hp⟩ := one_request r bs (hyp_of r hg) hw
+  exact ⟨_, hp, compare_all r t (hyp_of r hg), rfl, rfl, rfl⟩
+
+/-- the full statement holds for each frontend on the requests that meet `oneReqHyp` -/
+theorem C25_full_partial (fe : Nat) (r : Req) (bs : Bytes) (_hg : guar fe r = true) (hh : oneReqHyp r = true)
+    (hw : writeRequest r = (true, bs)) : ∃ p, rfcOne bs = .ok p ∧ compareParsed r p = none := by
+  obtain ⟨p, h1, h2, _⟩ := C25_one_request_partial r bs hh hw
+  exact ⟨p, h1, h2⟩
+
 /-! ### witnesses: the full statement fails for every frontend (syntax of method / names / values is not
     enforced); and what the SPDY frontend let through before fix C25-spdy-validate -/
 def base : Req :=
@@ -284,6 +288,11 @@ example : guarH2 exOK = true := by decide
 example : lineSafe exOK = true := by decide
 example : (writeRequest exOK).1 = true := by decide
 example : verdictOf exOK = none := by decide
+example : oneReqHyp exOK = true := by decide
+/-- chunked body in two pieces, value with CRLF injection attempt, duplicate values -/
+def exChunked : Req := { base with method := [80, 79, 83, 84], header := [([88], [[49, 13, 10, 69, 58, 50], [32, 51, 32]])],
+                                   body := some [[104], [105, 33]], contentLength := -1 }
+example : oneReqHyp exChunked = true ∧ (writeRequest exChunked).1 = true := by decide
 /-- a value carrying CRLF does not break the lines (lineSafe says nothing about values) -/
 def exVal : Req := { base with header := [([88], [[49, 13, 10, 69, 58, 50]])] }
 example : lineSafe exVal = true ∧ verdictOf exVal = none := by decide
